@@ -428,9 +428,10 @@ Proof.
     + exact Hl.
 Qed.
 
-Lemma upd_unpack u fs st : s_updates (fst (unpack u fs st)) = s_updates st.
+Lemma upd_unpack u work fs st : s_updates (fst (unpack u work fs st)) = s_updates st.
 Proof.
   revert st. induction fs as [|[n d] r IH]; intros st; simpl; [reflexivity|].
+  destruct (beneath work _); [|reflexivity]. cbn [negb].
   destruct (mkdir_all _ _ _) as [t1 [|]]; [|reflexivity].
   destruct u.
   - destruct (write_file_excl _ _ _ _); [rewrite IH|]; reflexivity.
@@ -485,7 +486,7 @@ Qed.
    then the second run of the rewritten file (flag off) passes and leaves the file alone. *)
 Definition with_update (cfg : config) (u : bool) : config :=
   {| c_continue := c_continue cfg; c_explicit_exec := c_explicit_exec cfg; c_unique := c_unique cfg;
-     c_update := u; c_host_conds := c_host_conds cfg; c_custom_cond := c_custom_cond cfg;
+     c_update := u; c_host_conds := c_host_conds cfg; c_goos := c_goos cfg; c_goarch := c_goarch cfg; c_go_minor := c_go_minor cfg; c_custom_cond := c_custom_cond cfg;
      c_cmds := c_cmds cfg; c_main_cmds := c_main_cmds cfg; c_helper := c_helper cfg;
      c_helper_dir := c_helper_dir cfg; c_watch := c_watch cfg; c_deadline := c_deadline cfg; c_cancelled := c_cancelled cfg |}.
 
@@ -510,7 +511,7 @@ Definition text (ls : list string) : bytes := List.concat (List.map (fun l => b 
 
 Definition cfg0 : config :=
   {| c_continue := false; c_explicit_exec := false; c_unique := false; c_update := true;
-     c_host_conds := []; c_custom_cond := None; c_cmds := []; c_main_cmds := [];
+     c_host_conds := []; c_goos := b "linux"; c_goarch := b "amd64"; c_go_minor := 23; c_custom_cond := None; c_cmds := []; c_main_cmds := [];
      c_helper := b "tshelper"; c_helper_dir := b "/h"; c_watch := []; c_deadline := false; c_cancelled := false |}.
 Definition env0 : list (bytes * bytes) := [(b "WORK", b "/w"); (b "PATH", b "/h")].
 Definition work : bytes := b "/w".
